@@ -208,7 +208,8 @@ def stat_file(rng, nrec):
 def c19(ck, tmp):
     from gaftools.cli.stat import run_stat
     rng = ck.rng
-    n = 250 if ck.tier == "quick" else 8000
+    n = 1200 if ck.tier == "quick" else 20000
+    pending = []
     for it in range(n):
         lines = stat_file(rng, rng.choice([1, 2, 3, 5, 8, 20, 60]))
         cigar = rng.random() < 0.6
@@ -235,7 +236,9 @@ def c19(ck, tmp):
                 for f in (p, o):
                     if os.path.exists(f):
                         os.remove(f)
-        r = ck.driver([{"op": "stat.run", "lines": lines, "cigar": cigar}])[0]
+        pending.append((lines, cigar, reports))
+    rep = ck.driver([{"op": "stat.run", "lines": l, "cigar": c} for l, c, _ in pending])
+    for (lines, cigar, reports), r in zip(pending, rep):
         sp, md = r["spec"], r["model"]
         nontriv = sp["secondary"] >= 1 and sp["reads"] < sp["primary"]
         ck.case(lines, nontriv and r["valid"], sample={"gaf": lines[:3], "report": reports[0]})
@@ -274,7 +277,8 @@ def c19(ck, tmp):
 def c20(ck, tmp):
     from gaftools.cli.phase import add_phase_info
     rng = ck.rng
-    n = 300 if ck.tier == "quick" else 8000
+    n = 1200 if ck.tier == "quick" else 20000
+    pending = []
     for it in range(n):
         nrec = rng.choice([1, 2, 3, 6, 12])
         lines = [rand_line(rng, rng.randrange(nrec + 2)) for _ in range(nrec)]
@@ -313,7 +317,9 @@ def c20(ck, tmp):
         finally:
             if os.path.exists(gaf):
                 os.remove(gaf)
-        r = ck.driver([{"op": "phase.file", "tsv": tsv, "gaf": lines, "impl": impl}])[0]
+        pending.append((tsv, lines, impl, names))
+    rep = ck.driver([{"op": "phase.file", "tsv": t, "gaf": l, "impl": i} for t, l, i, _ in pending])
+    for (tsv, lines, impl, names), r in zip(pending, rep):
         haps = {t.split("\t")[0]: t.split("\t")[1] for t in reversed(tsv)}
         kinds = {("missing" if nm not in haps else "unphased" if haps[nm] == "none" else "phased") for nm in names}
         ck.case({"tsv": tsv, "gaf": lines}, len(kinds) == 3 and r["valid"], sample={"tsv": tsv[:3], "gaf": lines[:2], "out": (impl or [])[:2]})
@@ -334,7 +340,7 @@ def main(prop):
     ck = Check(prop)
     ck.trusted = ["Lean 4.33.0 kernel", "axioms: propext, Classical.choice, Quot.sound (audited)", "correspondence harness + JSON driver",
                   "CPython str.split/rstrip/re.match and dict ordering as modelled in Model/Gaf.lean"]
-    ck.lean_build(["Gaftools.Props.%s" % prop])
+    ck.lean_build(["Gaftools.Props.%s" % prop] + (["Gaftools.Props.TieA"] if prop == "C19" else []))
     ck.audit("%s.lean" % prop)
     tmp = tempfile.mkdtemp(prefix="gtv-text-")
     try:
